@@ -71,45 +71,8 @@ inline std::string queue_op_str(const hz::OpRec& o) {
   return s;
 }
 
-// generic helpers for printing / hashing histories
-template <class F>
-std::string history_str(const hz::History& h, F op_str) {
-  std::vector<const hz::OpRec*> v;
-  for (auto& o : h.ops)
-    v.push_back(&o);
-  std::sort(v.begin(), v.end(), [](const hz::OpRec* x, const hz::OpRec* y) { return x->call < y->call; });
-  std::string s;
-  for (auto* o : v) {
-    s += op_str(*o);
-    s += "\n";
-  }
-  return s;
-}
-
-inline uint64_t history_hash(const hz::History& h) {
-  // order of call/return events + arguments + results
-  struct Ev {
-    uint64_t t;
-    uint64_t v;
-  };
-  std::vector<Ev> ev;
-  for (auto& o : h.ops) {
-    uint64_t base = hz::mix64(hz::mix64(o.thread, o.kind), hz::mix64((uint64_t)o.a, (uint64_t)o.b));
-    ev.push_back({o.call, hz::mix64(base, 1)});
-    ev.push_back({o.ret, hz::mix64(hz::mix64(base, 2), hz::mix64((uint64_t)o.r, (uint64_t)o.r2))});
-  }
-  std::sort(ev.begin(), ev.end(), [](const Ev& a, const Ev& b) { return a.t < b.t; });
-  uint64_t hsh = 0x1234;
-  for (auto& e : ev)
-    hsh = hz::mix64(hsh, e.v);
-  return hsh;
-}
-
-inline bool history_nontrivial(const hz::History& h) {
-  for (auto& o : h.ops)
-    if (o.thread != 0 && o.overlap)
-      return true;
-  return false;
-}
+using hz::history_hash;
+using hz::history_nontrivial;
+using hz::history_str;
 
 } // namespace mon
